@@ -1,0 +1,39 @@
+//go:build verif
+
+package skiplist
+
+// Contracts for the govc verifier (/verif/DESIGN.md, C17). Comment-only.
+//
+// Abstraction: SLMem[list] is the set of nodes of a list (references; the head sentinel included).
+// The abstract sorted map is { x.Entry | x in SLMem[s], x != s.head }, ordered by CompareKeys
+// (user key ascending, version descending). The representation invariant SL speaks about keys
+// only - no positions, no reachability predicate:
+//   nodes     every node has 1..maxLevel forward pointers in an array of its own; members have
+//             well-formed keys and at most s.level pointers
+//   links     a forward pointer at level l leads to a member with more than l pointers and (unless
+//             it starts at the head) a strictly larger key
+//   exact     level 0 skips nothing: if a member y is after node x, then x.next[0] exists and is <= y
+//   distinct  two members never compare equal
+// `exact` gives by a step-by-step argument that the level-0 chain from the head visits exactly the
+// members, in order - which is what All/Scan prove with their loop invariants.
+//@ ghost SLMem (Array Int (Array Int Bool))
+//@ ghost SLW Int
+//@ define slIn(s, x) = SLMem[ref(s)][ref(x)]
+//@ define slHdr(s) = s != nil && s.head != nil && s.maxLevel >= 1 && 1 <= s.level && s.level <= s.maxLevel && len(s.head.next) == s.maxLevel && SLMem[ref(s)][ref(s.head)] && !SLMem[ref(s)][0]
+//@ define slNodes(s) = forall(P_skiplist_Element(x), slIn(s, x) ==> (len(x.next) >= 1 && len(x.next) <= s.maxLevel && offof(x.next) == 0 && (x != s.head ==> (wf(x.Entry.Key) && len(x.next) <= s.level))), trig(slIn(s, x)))
+//@ define slLinks(s) = forall(P_skiplist_Element(x), Int(l), (slIn(s, x) && 0 <= l && l < len(x.next) && x.next[l] != nil) ==> (slIn(s, x.next[l]) && x.next[l] != s.head && l < len(x.next[l].next) && (x != s.head ==> cmp(x.Entry.Key, x.next[l].Entry.Key) < 0)), trig(x.next[l]))
+//@ define slPairs(s) = forall(P_skiplist_Element(x), P_skiplist_Element(y), (slIn(s, x) && slIn(s, y) && x != y) ==> (arrid(x.next) != arrid(y.next) && ((y != s.head && (x == s.head || cmp(x.Entry.Key, y.Entry.Key) < 0)) ==> (x.next[0] != nil && cmp(x.next[0].Entry.Key, y.Entry.Key) <= 0)) && ((x != s.head && y != s.head) ==> cmp(x.Entry.Key, y.Entry.Key) != 0)), trig(slIn(s, x), slIn(s, y)))
+//@ define SL(s) = slHdr(s) && slNodes(s) && slLinks(s) && slPairs(s)
+//
+//@ func (*skiplist.SkipList).Get -> e, ok
+//@ props C17 C01
+//@ requires SL(s) && wf(key)
+//@ assigns SLW
+//@ ensures ok ==> (SLMem[ref(s)][SLW] && SLW != ref(s.head) && cmp(cast(P_skiplist_Element, SLW).Entry.Key, key) == 0 && e == cast(P_skiplist_Element, SLW).Entry)
+//@ ensures !ok ==> forall(P_skiplist_Element(y), (slIn(s, y) && y != s.head) ==> cmp(y.Entry.Key, key) != 0, trig(slIn(s, y)))
+//@ at_exit exit: ghost SLW = ite(ok, ref(curr), SLW)
+//@ loop 0:
+//@   invariant 0 - 1 <= i && i < s.maxLevel && i + 1 <= len(curr.next) && slIn(s, curr) && (curr != s.head ==> cmp(curr.Entry.Key, key) < 0)
+//@   invariant i == 0 - 1 ==> (curr.next[0] == nil || cmp(curr.next[0].Entry.Key, key) >= 0)
+//@ loop 1:
+//@   invariant 0 <= i && i < s.maxLevel && i < len(curr.next) && slIn(s, curr) && (curr != s.head ==> cmp(curr.Entry.Key, key) < 0)
